@@ -4,7 +4,7 @@
    positional value of digit strings. *)
 From Coq Require Import ZArith List String Bool Arith Lia.
 From SV Require Import C14.Tokens C14.Parse C14.Print C14.Scan C14.ProofsScan
-  C14.ProofsBase C14.ProofsExpr C14.ProofsTop C14.ProofsLayout.
+  C14.ProofsBase C14.ProofsExpr C14.ProofsTop C14.ProofsLayout C14.PrintStmt C14.ProofsStmt C14.ProofsStmt2.
 Import ListNotations.
 Open Scope nat_scope.
 
@@ -169,12 +169,47 @@ Example layout_ex :
   stk_ok [8; 2; 0] /\ @line_start nat [8; 2; 0] 4 = LErr.
 Proof. cbn zeta. split; [reflexivity|]. split; [vm_compute; reflexivity|]. split; [cbn; lia|reflexivity]. Qed.
 
-(* (4) parse_print_stmt -- NOT PROVED.  Full statement: for every concrete
-   statement tree c (simple-statement lines with optional trailing `;`, inline
-   or indented suites, if/elif/else, for, while, def, load) whose expressions are
-   well parenthesised, p_file (parsers n) (tokens_c c ++ [EOF]) = Ok (flatten c)
-   for n >= 40 * size.  The statement parser is modelled (Parse.v stmt_body ..
-   file_body) and tied to the real parser by the correspondence check on every
-   run (generated files of all statement forms, depth 6); the expression
-   theorem above covers every expression inside statements; layout_roundtrip
-   covers the NEWLINE/INDENT/OUTDENT structure the suites consume. *)
+(* ------------------------------------------------------------------------ *)
+(* (4) parse . print = id for statements.  Concrete statement trees (PrintStmt.v:
+   which small statements share a line, optional trailing `;`, inline or
+   indented suites, if/elif/else chains, for, while, def with all parameter
+   forms and trailing comma, load with aliases, return/break/continue/pass,
+   assignment with every augmented operator) render to NEWLINE / INDENT /
+   OUTDENT-structured token lists; the statement parser returns exactly the
+   Go-shaped tree `flatten c` and leaves what follows. *)
+Theorem parse_print_stmt :
+  forall (c : cstmt) (rest : list ptok) (n : nat),
+    cstmt_ok c = true ->
+    not_else (peek rest) = true ->           (* what follows is not `elif` / `else` *)
+    40 * csize c + 10 <= n ->
+    p_stmt (parsers n) (tokens_c c ++ rest) = Ok (flatten c, rest).
+Proof.
+  intros c rest n Hok Hne Hn. destruct (stmt_all (csize c)) as [P _].
+  exact (P c (le_n _) Hok rest n Hne Hn).
+Qed.
+
+(* FileOptions.Parse on a whole file *)
+Theorem parse_print_file :
+  forall (f : list cstmt) (p : pos) (n : nat),
+    forallb cstmt_ok f = true ->
+    40 * csizes f + 12 <= n ->
+    p_file (parsers n) (flat_map tokens_c f ++ [(EOF, p)]) = Ok (flat_map flatten f).
+Proof. exact file_ok. Qed.
+
+(*  def f(a, *b,):          if x: return a; pass;
+        y += 1              elif z:
+        return                  load("m", "s", t="u")                    *)
+Definition ex_file : list cstmt :=
+  [CDef (1,1) (1,5) "f" (1,6) [Ident (1,7) "a"; Unary (1,10) STAR (Some (Ident (1,11) "b"))] true (1,13)
+     (SBlock [CSimple [AssignStmt (Ident (2,5) "y") (2,7) PLUS_EQ (Literal (2,10) (LInt 1))] false;
+              CSimple [ReturnStmt (3,5) None] false]);
+   CIf (4,1) (Ident (4,4) "x")
+     (SInline [ReturnStmt (4,7) (Some (Ident (4,14) "a")); BranchStmt (4,17) PASS] true)
+     [((5,1), Ident (5,6) "z",
+       SBlock [CSimple [LoadStmt (6,5) (6,9) (6,10) [109] [(None, (6,15), [115]); (Some ((6,20), "t"%string), (6,22), [117])] false (6,25)] false])]
+     None]%Z.
+Example parse_print_file_ex :
+  forallb cstmt_ok ex_file = true /\
+  parse_file (flat_map tokens_c ex_file ++ [(EOF, (7,1)%Z)]) = Ok (flat_map flatten ex_file) /\
+  40 * csizes ex_file + 12 <= fuel_of (flat_map tokens_c ex_file ++ [(EOF, (7,1)%Z)]).
+Proof. split; [vm_compute; reflexivity|]. split; [vm_compute; reflexivity|vm_compute; repeat constructor]. Qed.
